@@ -196,7 +196,56 @@ func c12LeanT(c *engine.Ctx, a, b, p [2]float64) {
 	}
 }
 
+// c12CollinearEnds: two segments on one axis-parallel (or diagonal x = y) line whose ends differ in
+// magnitude or sign; the second starts 0..3 ulps before / after the end of the first (a touch, an
+// overlap of a few ulps, a gap of a few ulps) and runs on to a third value. Every ordered triple
+// of values over a 7-value menu, three orientations, all eight order/direction variants; the
+// classification (none / point / collinear overlap) is exact for floats.
+func c12CollinearEnds(c *engine.Ctx) {
+	vals := []float64{-3.5, -1, 0.1, 1.3, 4, 900.25, 1e6 + 0.5}
+	c.Parallel(len(vals), func(i int) {
+		s := vals[i]
+		for _, e := range vals {
+			for _, f := range vals {
+				if e == s || f == e || (e > s) != (f > e) {
+					continue // the three values in one direction along the line
+				}
+				for k := -3; k <= 3; k++ {
+					t := ulps(e, k)
+					for orient := 0; orient < 3; orient++ {
+						mk := func(v float64) [2]float64 {
+							switch orient {
+							case 0:
+								return [2]float64{v, 0.7}
+							case 1:
+								return [2]float64{0.7, v}
+							}
+							return [2]float64{v, v}
+						}
+						a1, a2, b1, b2 := mk(s), mk(e), mk(t), mk(f)
+						for variant := 0; variant < 8; variant++ {
+							p1, p2, q1, q2 := a1, a2, b1, b2
+							if variant&1 != 0 {
+								p1, p2 = p2, p1
+							}
+							if variant&2 != 0 {
+								q1, q2 = q2, q1
+							}
+							if variant&4 != 0 {
+								p1, p2, q1, q2 = q1, q2, p1, p2
+							}
+							c.Count("collinear_end_cases", 1)
+							c12Exec(c, c12Case{Pts: []ref.F{ref.F(p1[0]), ref.F(p1[1]), ref.F(p2[0]), ref.F(p2[1]), ref.F(q1[0]), ref.F(q1[1]), ref.F(q2[0]), ref.F(q2[1])}, Class: true})
+						}
+					}
+				}
+			}
+		}
+	})
+}
+
 func c12Run(c *engine.Ctx) {
+	c12CollinearEnds(c)
 	// classification over moderate-magnitude floats within a few ulps of a T-junction: the
 	// near-collinear families of C10 (float-line lattice, mixed-magnitude collinear triples,
 	// segments through the coordinate origin)
